@@ -244,35 +244,46 @@ def enumerate_tree(elfi, model, ref, kind, seed, mp, mode, depth, on_fail, budge
     """exhaustive decision tree below `root` up to `depth` decisions; beyond the prefix the constant pads.
     max_len: do not extend prefixes beyond this length (the top slice of a tree whose subtrees are separate jobs)."""
     cases = nontriv = 0
-    pads = (0, 1) if mode == 'answers' else (0,)
     stack = [list(root)]
     while stack:
         prefix = stack.pop()
+        # whether a further decision is asked for depends on the prefix only, so one run decides it; a run that asks for more is
+        # the same schedule as prefix + [pad] one level down and is only counted at the depth limit (there with both pads)
+        pads = [0]
         more = None
-        for pad in pads:
+        while pads:
+            pad = pads.pop(0)
             if budget[0] <= 0:
                 return cases, nontriv, False
             budget[0] -= 1
             f, c = check_run(elfi, model, ref, kind, seed, mp, mode, prefix, pad)
             if c.asked < len(prefix):
-                continue            # this prefix is longer than what the run asks for: the same schedule was run under a shorter prefix
+                break               # this prefix is longer than what the run asks for: the same schedule was run under a shorter prefix
+            asks_more = c.asked > len(prefix)
+            at_limit = len(prefix) >= depth or (max_len is not None and len(prefix) >= max_len)
+            if asks_more and not at_limit and not f:
+                more = c.options[len(prefix)]
+                break               # internal node: covered by its children
             cases += 1
             nontriv += 1 if (c.maxout >= 2 or any(e[0] == 'rm' for e in c.log)) else 0
             if f:
                 if on_fail(f, dict(kind=kind, seed=seed, max_parallel_batches=mp, mode=mode, decisions=list(prefix), pad=pad)):
                     return cases, nontriv, True
-            if c.asked > len(prefix):
-                n_opt = c.options[len(prefix)]
-                more = n_opt if more is None else max(more, n_opt)
-        if more is not None and len(prefix) < depth and (max_len is None or len(prefix) < max_len):
+            if asks_more and at_limit and mode == 'answers' and pad == 0 and not (max_len is not None and len(prefix) >= max_len and len(prefix) < depth):
+                pads.append(1)      # depth limit: the all-1 continuation as well
+        if more is not None:
             for d in range(more):
                 stack.append(prefix + [d])
     return cases, nontriv, True
 
 
 def replay_input(inp):
-    """True iff the property HOLDS on this schedule"""
+    """True iff the property HOLDS on this schedule / operation sequence"""
+    if inp.get('mode') == 'native-ops':
+        return check_native_ops(inp['ops']) is None
     elfi = native.import_elfi()
+    if inp.get('mode') == 'native':
+        return check_native_run(elfi, build_model(elfi), inp['kind'], inp['seed'], inp['max_parallel_batches']) is None
     model = build_model(elfi)
     ref, _ = reference(elfi, model, inp['kind'], inp['seed'])
     f, c = check_run(elfi, model, ref, inp['kind'], inp['seed'], inp['max_parallel_batches'], inp['mode'], inp['decisions'], inp['pad'])
@@ -313,12 +324,14 @@ def run(tier='quick', seed=0, stop_first=True, kinds=KINDS, depth_answers=None, 
     import multiprocessing as mp_
     import os
     native.import_elfi()
-    LA = depth_answers or (8 if tier == 'quick' else 12)
+    LA0 = depth_answers or (8 if tier == 'quick' else 12)
+    LS = depth_answers or (7 if tier == 'quick' else 10)          # SMC runs are ~5x dearer than Rejection runs
     LX = depth_exec or (4 if tier == 'quick' else 6)
     budget = 3000 if tier == 'quick' else 40000
     jobs = []
     for sd in range(seed, seed + (1 if tier == 'quick' else 2)):
         for kind in kinds:
+            LA = LS if kind == 'smc' else LA0
             for mp in (1, 2, 3):
                 jobs.append((kind, sd, mp, 'answers', LA, (), SPLIT - 1 if LA >= SPLIT else None, budget, stop_first))
                 if LA >= SPLIT:
@@ -342,8 +355,112 @@ def run(tier='quick', seed=0, stop_first=True, kinds=KINDS, depth_answers=None, 
     if stop_first:
         fails = fails[:1]
     return dict(name='scheduled-client-exhaustive',
-                bound='objectives %s; max_parallel_batches 1..3; every is_ready answer string up to length %d (then all-0 / all-1); every execution '
+                bound='objectives %s; max_parallel_batches 1..3; every is_ready answer string up to length %d (SMC: %d), then all-0 / all-1; every execution '
                       'order of the outstanding tasks over the first %d choice points (then lazy); seeds %d..%d; batch_size %d%s'
-                      % ('/'.join(kinds), LA, LX, seed, seed + (0 if tier == 'quick' else 1), BATCH_SIZE, '' if complete else ' [run budget exhausted: enumeration incomplete]'),
+                      % ('/'.join(kinds), LA0, LS, LX, seed, seed + (0 if tier == 'quick' else 1), BATCH_SIZE, '' if complete else ' [run budget exhausted: enumeration incomplete]'),
                 rule='non-trivial = a run in which >= 2 tasks were outstanding at once or a task was cancelled',
                 cases=cases, nontrivial=nontriv, failures=fails)
+
+
+# ------------------------------------------------------------------------------------------------ the native client
+OPS = ('apply', 'get_oldest', 'get_newest', 'remove_oldest', 'remove_newest', 'remove_absent', 'is_ready', 'reset')
+
+
+def check_native_ops(ops):
+    """the abstract client contract, executable, on the REAL elfi.clients.native.Client for one operation sequence"""
+    nat = native.import_module('elfi.clients.native')
+    c = nat.Client()
+    model = {}                # id -> value the task must return
+    issued = set()
+    ran = []
+    n = 0
+    for op in ops:
+        live = sorted(model)
+        try:
+            with native.time_limit(5):
+                if op == 'apply':
+                    n += 1
+                    i = c.apply(lambda v, tag=None: (ran.append(v), (v, tag))[1], n, tag='t%d' % n)
+                    if i in model:
+                        return 'apply returned id %r which is still in the client' % (i,)
+                    if ran:
+                        return 'apply executed the task'
+                    model[i] = (n, 't%d' % n)
+                    issued.add(i)
+                elif op in ('get_oldest', 'get_newest') and live:
+                    i = live[0] if op == 'get_oldest' else live[-1]
+                    r = c.get_result(i)
+                    if r != model[i]:
+                        return 'get_result(%r) returned %r, the task stored under it yields %r' % (i, r, model[i])
+                    del model[i]
+                    ran.clear()
+                elif op in ('remove_oldest', 'remove_newest') and live:
+                    i = live[0] if op == 'remove_oldest' else live[-1]
+                    c.remove_task(i)
+                    del model[i]
+                elif op == 'remove_absent':
+                    c.remove_task(10 ** 6)
+                elif op == 'is_ready' and live:
+                    if not isinstance(c.is_ready(live[0]), bool):
+                        return 'is_ready did not answer a bool'
+                elif op == 'reset':
+                    c.reset()
+                    model.clear()
+        except Exception as e:
+            return '%s raised %s: %s' % (op, type(e).__name__, str(e)[:80])
+        if set(c.tasks) != set(model):
+            return 'after %s the task table holds %r, expected %r' % (op, sorted(c.tasks), sorted(model))
+    return None
+
+
+def check_native_run(elfi, model, kind, seed, mp):
+    import elfi.client as ec
+    nat = native.import_module('elfi.clients.native')
+    ref, _ = reference(elfi, model, kind, seed)
+    c = nat.Client()
+    old = ec.get_client()
+    ec.set_client(c)
+    try:
+        with native.time_limit(20):
+            key = _key(_sample(elfi, model, kind, seed, mp))
+    except Exception as e:
+        return 'run failed: %s: %s' % (type(e).__name__, str(e)[:120])
+    finally:
+        ec.set_client(old)
+    if c.tasks:
+        return '%d submitted task(s) left in the native client when inference returned' % len(c.tasks)
+    d = _diff(ref, key)
+    if d:
+        return 'native client: result differs from the sequential scheduled run in `%s`' % d
+    return None
+
+
+def run_native(tier='quick', seed=0):
+    elfi = native.import_elfi()
+    model = build_model(elfi)
+    L = 4 if tier == 'quick' else 5
+    fails, cases, nontriv = [], 0, 0
+    for n in range(1, L + 1):
+        for ops in itertools.product(OPS, repeat=n):
+            if ops[0] != 'apply':
+                continue
+            cases += 1
+            nontriv += 1 if ops.count('apply') >= 2 else 0
+            f = check_native_ops(ops)
+            if f and not fails:
+                fails.append(dict(signature='c04:native-client:' + f.split(' ')[0][:30], what=f, input=dict(mode='native-ops', ops=list(ops))))
+        if fails:
+            break
+    if not fails:
+        for kind in KINDS:
+            for mp in (1, 2, 3):
+                cases += 1
+                nontriv += 1 if mp > 1 else 0
+                f = check_native_run(elfi, model, kind, seed, mp)
+                if f:
+                    fails.append(dict(signature='c04:native-run:' + f.split(':')[0][:40], what=f, input=dict(mode='native', kind=kind, seed=seed, max_parallel_batches=mp)))
+                    break
+            if fails:
+                break
+    return dict(name='native-client-contract', bound='every operation sequence of length <= %d over %s starting with apply; %s x max_parallel_batches 1..3 on the real native client' % (L, '/'.join(OPS), '/'.join(KINDS)),
+                rule='non-trivial = at least two tasks queued (sequences) or max_parallel_batches > 1 (runs)', cases=cases, nontrivial=nontriv, failures=fails)
